@@ -71,7 +71,9 @@ class Doc(object):
     self.apply(["InitNewDoc"])
 
   def apply(self, *uas):
-    ag = self.e.apply_user_actions([UA(list(u)) for u in uas])
+    import copy
+    # (the engine mutates nested arguments, e.g. AddTable's column list: always hand it a private copy)
+    ag = self.e.apply_user_actions([UA(copy.deepcopy(list(u))) for u in uas])
     if self.rep is not None:
       for a in ag.stored:
         self.rep.apply_doc_action(actions.action_from_repr(actions.get_action_repr(a)))
@@ -308,7 +310,10 @@ LOOK = "len({T}.lookupRecords({c0}={C0})) if $id == 1 else 0"
 LOOK1 = "len({T}.lookupRecords({c1}={C1})) if $id == 1 else 0"
 
 
-def _fill(f, t, t0, cols):
+def _fill(f, t, t0, cols, avoid=None):
+  # (never the column that receives the formula: self-references are the subject of C18, and an error
+  # cell that went through a doc action makes dependants report a different exception class)
+  cols = [c for c in cols if c != avoid] or ["id"]
   c0 = cols[0] if cols else "id"
   c1 = cols[1] if len(cols) > 1 else c0
   return (f.replace("{T0}", t0).replace("{T}", t).replace("{C0}", "$" + c0).replace("{c0}", c0)
@@ -361,8 +366,8 @@ class Pools(object):
     max_tables=2, max_cols=3,
   )
   MICRO = dict(
-    names=["Z"], types=["Text", "Numeric"], vals=["x", 2, "{DUP}"], rows=["last", "absent"], formulas=["{C0}", LOOK, LOOK1],
-    max_tables=1, max_cols=2,
+    names=["Z"], types=["Text", "Numeric"], vals=["x", "{DUP}"], rows=["last", "absent"], formulas=["{C0}", LOOK1],
+    max_tables=1, max_cols=2, meta_fields=["colId", "type", "isFormula"],
   )
   max_tables = None
   max_cols = None
@@ -471,7 +476,9 @@ def gen_action(h, d, pfx, pools):
     if shape == "formula":
       f = _fill(h.choice(pfx + "formula", pools.formulas), t, t0, cols)
       return ["AddColumn", t, name, {"type": "Any", "isFormula": True, "formula": f}]
-    return ["AddColumn", t, name, {"type": "Int", "isFormula": False, "formula": "$id + 1",
+    # a trigger formula that fails leaves an error cell that remembers the previous (falsy) value
+    tf = h.choice(pfx + "tformula", ["$id + 1", "1 / ($id - $id)"])
+    return ["AddColumn", t, name, {"type": "Int", "isFormula": False, "formula": tf,
                                    "recalcWhen": h.choice(pfx + "when", [0, 1, 2])}]
   if not cols:
     return ["RemoveTable", t]
@@ -500,7 +507,7 @@ def gen_action(h, d, pfx, pools):
     shape = h.choice(pfx + "shape", ["toData", "toFormula", "newFormula"])
     if shape == "toData":
       return ["ModifyColumn", t, c, {"isFormula": False}]
-    f = _fill(h.choice(pfx + "formula", pools.formulas), t, t0, cols)
+    f = _fill(h.choice(pfx + "formula", pools.formulas), t, t0, cols, avoid=c)
     if shape == "toFormula":
       return ["ModifyColumn", t, c, {"isFormula": True, "formula": f}]
     return ["ModifyColumn", t, c, {"formula": f}]
@@ -519,7 +526,7 @@ def gen_action(h, d, pfx, pools):
     if field == "isFormula":
       return ["UpdateRecord", "_grist_Tables_column", ref, {"isFormula": h.bool(pfx + "flag")}]
     if field == "formula":
-      f = _fill(h.choice(pfx + "formula", pools.formulas), t, t0, cols)
+      f = _fill(h.choice(pfx + "formula", pools.formulas), t, t0, cols, avoid=c)
       return ["UpdateRecord", "_grist_Tables_column", ref, {"formula": f}]
     if field == "recalcWhen":
       return ["UpdateRecord", "_grist_Tables_column", ref, {"recalcWhen": h.choice(pfx + "when", [0, 1, 2])}]
@@ -643,9 +650,12 @@ def check_direct(d, ag, bundle):
       cols = list(r[3])
       if tab is not None and cols and all(tab.has_column(c) and tab.get_column(c).is_formula() for c in cols):
         return "formula-result update marked direct: %s" % (r,)
+  # clause (4) is judged only for bundles made of record edits: a type change in the same bundle emits
+  # conversion deltas for the same cells, which are not the user's edits
+  only_records = all(u[0] in RECORD_KINDS for u in bundle)
   for ua in bundle:
     kind, table = ua[0], ua[1]
-    if kind not in RECORD_KINDS or table in summ or table.startswith("_grist_"):
+    if not only_records or kind not in RECORD_KINDS or table in summ or table.startswith("_grist_"):
       continue
     base = kind.replace("Bulk", "")
     asked = set(ua[3]) if len(ua) > 3 and isinstance(ua[3], dict) else set()
